@@ -42,6 +42,8 @@ def gen_node(spec):
 
 
 H = None
+P = None          # object with a property `now` (set by the harness)
+BLOCKS = None     # name -> ControlStatusCtx objects owned by the harness (per thread lookups happen inside)
 
 %s
 node_l = lambda spec: H.lam_body(spec)
@@ -54,7 +56,12 @@ def node_%(n)s(spec):
     H.local_probe(spec, tag)
     return tag
 
-  H.enter(spec)
+  nc = P.now                   # attribute access (a property getter): observes the status without any call
+  if spec['first_in_block']:
+    with BLOCKS[spec['first_in_block']]:     # a user's own context block written in converted code,
+      H.enter(spec)                          # holding the function's first call
+  else:
+    H.enter(spec)
   if spec['local'] == 'direct':
     local('direct')
   elif spec['local'] == 'dnc':
@@ -189,6 +196,7 @@ def _gen_link(rng, prefix, budget, depth, max_depth, root, n_shared):
     link['finish'] = rng.choice(['close', 'exhaust', 'abandon'])
     link['spec']['raise_at'] = None
     link['spec']['local'] = None
+    link['spec']['first_in_block'] = None
   return link
 
 
@@ -208,6 +216,7 @@ def _gen_node(rng, prefix, budget, depth, max_depth, n_shared):
     raise_at = rng.randrange(len(children) + 1)
   return {'id': nid, 'children': children, 'raise_at': raise_at,
           'local': rng.choice([None, None, None, 'direct', 'dnc', 'dnc', 'escape']),
+          'first_in_block': rng.choice([None, None, None, None, 'ENABLED', 'DISABLED', 'UNSPECIFIED']),
           'raise_kind': (rng.choice([1, 1, 2]) if (raise_at is not None and rng.random() < 0.4) else 0)}
 
 
@@ -301,6 +310,35 @@ class ThreadState(object):
     self.trace = []         # compact history for samples
     self.captured = []      # context object current at the entry of each open node (parallel to expect)
     self.escaped = None     # (local function that escaped from a node, its spec)
+    self.noncall = None     # context object seen by the last property-getter probe
+    self.blocks = {}        # status name -> this thread's ControlStatusCtx for user blocks in converted code
+
+
+class _Probe(object):
+
+  def __init__(self, H):
+    self._H = H
+
+  @property
+  def now(self):
+    self._H.noncall_probe()
+    return 0
+
+
+class _Blocks(object):
+  """BLOCKS['ENABLED'] etc.: a ControlStatusCtx per (thread, status), created on first use."""
+
+  def __init__(self, H):
+    self._H = H
+
+  def for_thread(self, st, name):
+    c = st.blocks.get(name)
+    if c is None:
+      c = st.blocks[name] = self._H.ag_ctx.ControlStatusCtx(getattr(self._H.ag_ctx.Status, name))
+    return c
+
+  def __getitem__(self, name):
+    return self.for_thread(self._H._st(), name)
 
 
 class Harness(object):
@@ -329,6 +367,9 @@ class Harness(object):
                   'fallback_nodes': 0, 'to_graph_failed': 0, 'status_checks': 0,
                   'restore_checks': 0, 'max_region_depth': 0}
     self.switch_in_region = False
+    self.blocks = _Blocks(self)
+    mod.P = _Probe(self)
+    mod.BLOCKS = self.blocks
     # convert() wrappers created ahead of time, by this (main) thread, inside a disabled region
     self.premade = {}
     with ag_ctx.ControlStatusCtx(ag_ctx.Status.DISABLED):
@@ -400,6 +441,7 @@ class Harness(object):
     st = self._st()
     self.stats['nodes'] += 1
     gen = self._generated_caller()
+    blk = spec.get('first_in_block')
     if gen:
       self.stats['generated_nodes'] += 1
     if st.pending:
@@ -413,7 +455,22 @@ class Harness(object):
     st.captured.append(self.cur_ctx(st))
     self.stats['max_region_depth'] = max(self.stats['max_region_depth'], len(st.expect))
     st.trace.append('>%s%s' % (spec['id'], '*' if gen else ''))
-    self._check_status(st, spec, 'enter')
+    if blk:
+      # this call sits inside the user's block: the block's own object is current, whatever the node is
+      c = self.cur_ctx(st)
+      self.stats['first_call_in_block'] = self.stats.get('first_call_in_block', 0) + 1
+      if c is not self.blocks.for_thread(st, blk):
+        self.viol('S2', 'node %s: inside its own `with` block (first call of the function) the current context '
+                  'is not the block\'s object (%s)' % (spec['id'], _status_name(c)), sig='block-ctx-identity')
+    else:
+      self._check_status(st, spec, 'enter')
+    # the status observed without a call, before the first call of the node
+    nc = getattr(st, 'noncall', None)
+    st.noncall = None
+    if nc is not None and exp is not None and not isinstance(exp, tuple) and _status_name(nc) != exp:
+      self.viol('S3' if exp == 'ENABLED' else 'S2',
+                'node %s: status observed by a property getter before the first call of the function is %s, expected %s'
+                % (spec['id'], _status_name(nc), exp), sig='noncall-status-%s-for-%s' % (_status_name(nc), exp))
     # abstract state (for the evidence): the modelled status stacks of all threads
     if len(self.abstract) < 400:
       self.abstract.add(repr(sorted((t.tid, [e if not isinstance(e, tuple) else 'ctx' for e in t.expect])
@@ -447,6 +504,13 @@ class Harness(object):
       c = c.__context__ or c.__cause__
       seen += 1
     return False
+
+  def noncall_probe(self):
+    """Called from the property getter P.now at the very start of a node (before
+    its first call): records what the status is at that moment; `enter` judges it."""
+    st = self.ts.get(_thread.get_ident())
+    if st is not None:
+      st.noncall = self.cur_ctx(st)
 
   def local_probe(self, spec, tag):
     """Status seen inside a local function of a node.  Called directly it sees
@@ -494,7 +558,11 @@ class Harness(object):
     """Body of the lambda node: same protocol as the def nodes, driven from
     harness code (a lambda cannot hold statements).  Plain children are native
     calls made by this unconverted helper."""
-    self.enter(spec)
+    if spec.get('first_in_block'):
+      with self.blocks.for_thread(self._st(), spec['first_in_block']):
+        self.enter(spec)
+    else:
+      self.enter(spec)
     i = 0
     for link in spec['children']:
       if spec['raise_at'] == i:
